@@ -33,7 +33,7 @@ ASSUMPTIONS = [
 
 
 def enumerate_cases(cfg):
-    r = vlib.tlc(PID, FAMILY, "ThresholdBLSGen", cfg, workers=1, timeout=900)
+    r = vlib.tlc(PID, FAMILY, "ThresholdBLSGen", cfg, workers=1, timeout=2700)
     if not r.ok:
         raise vlib.Infra("case enumeration failed: %s\n%s" % (r.summary(), r.out[-2000:]))
     cases = [json.loads(p) for p in vlib.tagged_prints(r, "SCHED")]
